@@ -2,6 +2,7 @@ import Tumfl.Spec.Show
 import Tumfl.Model.Lexer
 import Tumfl.Model.Dump
 import Tumfl.Model.Layout
+import Tumfl.Model.FormatI
 import Tumfl.Model.Resolve
 /-!
 # Line-protocol driver
@@ -101,7 +102,7 @@ def parseStyle (fs : List String) : Option Model.Style :=
 
 /-- every stage of `format` on the model, as one line -/
 def formatStages (sty : Model.Style) (ast : Model.Block) : String :=
-  let ts0 := Model.emit sty ast
+  let ts0 := Model.emitI sty ast
   let stage (name : String) (r : Except Model.PyErr Model.Pieces) (k : Model.Pieces → String) : String :=
     match r with
     | .error e => s!"{name}=ERR {showPyErr e}"
@@ -115,7 +116,7 @@ def formatStages (sty : Model.Style) (ast : Model.Block) : String :=
   s!" | orphans={showPieces ts5}" ++
   stage " | resolve" (Model.resolveTokens sty ts5) fun ts6 =>
   stage " | indent" (Model.indentLoop sty.indentation ts6 0 false) fun _ =>
-  match Model.format sty ast with
+  match Model.formatI sty ast with
   | .ok out => " | text=" ++ hexOfText out
   | .error e => " | text=ERR " ++ showPyErr e
 
